@@ -37,15 +37,21 @@ const (
 	KS    Kind = "S"    // C.S
 	KANY  Kind = "ANY"  // AnyStruct
 	KFN   Kind = "FN"   // fun(): Int
+	KVFN  Kind = "VFN"  // view fun(): &C.S
+	KNFN  Kind = "NFN"  // fun(): &C.S
+	KVRFN Kind = "VRFN" // view fun(): &C.R
+	KPFN  Kind = "PFN"  // fun(auth(C.E) &C.S): Int
 )
 
 func (k Kind) resource() bool { return k == KR || k == KRO || k == KRA || k == KRD || k == KAR }
 
 var kindType = map[Kind]string{KR: "@C.R", KRO: "@C.R?", KRA: "@[C.R]", KRD: "@{String: C.R}", KAR: "@AnyResource",
-	KREF: "&C.R", KAREF: "auth(C.E) &C.R", KCREF: "&C.Child", KOREF: "&C.R?", KIREF: "&{C.RI}", KS: "C.S", KANY: "AnyStruct", KFN: "fun(): Int"}
+	KREF: "&C.R", KAREF: "auth(C.E) &C.R", KCREF: "&C.Child", KOREF: "&C.R?", KIREF: "&{C.RI}", KS: "C.S", KANY: "AnyStruct", KFN: "fun(): Int",
+	KVFN: "view fun(): &C.S", KNFN: "fun(): &C.S", KVRFN: "view fun(): &C.R", KPFN: "fun(auth(C.E) &C.S): Int"}
 
 var kindPrefix = map[Kind]string{KR: "r", KRO: "ro", KRA: "arr", KRD: "dict", KAR: "anyr", KREF: "ref", KAREF: "aref",
-	KCREF: "cref", KOREF: "oref", KIREF: "iref", KS: "s", KANY: "any", KFN: "fn"}
+	KCREF: "cref", KOREF: "oref", KIREF: "iref", KS: "s", KANY: "any", KFN: "fn",
+	KVFN: "vfn", KNFN: "nfn", KVRFN: "vrfn", KPFN: "pfn"}
 
 // Template is one statement template. Text placeholders:
 //
@@ -179,6 +185,23 @@ var Templates = []Template{
 	{"fn-capture-struct", "struct closure", `var {h=new FN} = fun(): Int { return s.val() }`},
 	{"fn-mutate", "closure", `var {h=new FN} = fun(): Int { x = x + 1; return x }`},
 	{"fn-call", "closure", `x = x + {h=use FN}()`},
+	// --- function values transferred to function types that differ only by a weaker authorization
+	//     (covariant return, contravariant parameter), view and non-view, closures and bound functions
+	{"fnv-assign-view", "closure fnval", `var {g=new VFN} = view fun(): auth(C.E) &C.S { return &s as auth(C.E) &C.S }`},
+	{"fnv-assign-impure", "closure fnval", `var {g=new NFN} = fun(): auth(C.E) &C.S { return &s as auth(C.E) &C.S }`},
+	{"fnv-assign-bound-view", "closure fnval", `var {g=new VFN} = s.me`},
+	{"fnv-assign-bound-impure", "closure fnval", `var {g=new NFN} = s.meImpure`},
+	{"fnv-view-to-impure", "closure fnval", `var {g=new NFN} = {h=use VFN}`},
+	{"fnv-pass-view", "closure fnval", `x = x + C.callView(view fun(): auth(C.E) &C.S { return &s as auth(C.E) &C.S })`},
+	{"fnv-pass-bound", "closure fnval", `x = x + C.callView(s.me) + C.callImpure(s.meImpure)`},
+	{"fnv-return-view", "closure fnval", `var {g=new VFN} = C.weaken(view fun(): auth(C.E) &C.S { return &s as auth(C.E) &C.S })`},
+	{"fnv-nested-view", "closure fnval", `x = x + (view fun(): [auth(C.E) &C.S]? { return [&s as auth(C.E) &C.S] } as view fun(): [&C.S]?)()![0].n`},
+	{"fnv-param-contra", "closure fnval", `var {g=new PFN} = fun(r: &C.S): Int { return r.n }`},
+	{"fnv-param-call", "closure fnval", `x = x + C.callWithAuth({g=use PFN}, &s as auth(C.E) &C.S)`},
+	{"fnv-aref-view", "ref closure fnval", `var {g=new VRFN} = view fun(): auth(C.E) &C.R { return {f=use AREF} }`},
+	{"fnv-call-view", "closure fnval", `x = x + {g=use VFN}().n`},
+	{"fnv-call-impure", "closure fnval", `x = x + {g=use NFN}().n`},
+	{"fnv-call-ref-view", "ref closure fnval", `x = x + {g=use VRFN}().n`},
 	// --- structs, default functions, struct attachments
 	{"s-set", "struct", `s.setN(x + 1)`},
 	{"s-copy", "struct", `var {t=new S} = s`},
